@@ -290,7 +290,11 @@ pub fn show_slots(ctx: &mut Ctx, g: &ModuleGraph) -> Vec<String> {
           None => "-".to_string(),
           Some(td) => show_res(ctx, &td.dependency),
         };
-        format!("js:{:?}:[{}]:{}", js.media_type, deps, td)
+        let sm = match &js.maybe_source_map_dependency {
+          None => "-".to_string(),
+          Some(sm) => show_res(ctx, &sm.dependency),
+        };
+        format!("js:{:?}:[{}]:{}:{}", js.media_type, deps, td, sm)
       }
       Some(Ok(Module::Wasm(wm))) => format!("wasm:[{}]", show_deps(ctx, &wm.dependencies)),
       Some(Ok(Module::Json(_))) => "json".into(),
